@@ -265,10 +265,40 @@ func (fx *FX) execInstr(fr *frame, st *State, ins ssa.Instruction) bool {
 		return true
 	case *ssa.MakeMap:
 		r := fx.newRef(st, t.Name())
+		mt := t.Type().Underlying().(*types.Map)
+		ks := w.SortOf(mt.Key())
+		hk := "MH:" + sortID(ks)
+		hs := fx.comp(st, hk, SArr(SInt, SArr(ks, SBool)))
+		fx.setComp(st, hk, Store(hs, r, T(fmt.Sprintf("((as const %s) false)", SArr(ks, SBool)), SArr(ks, SBool))))
+		logComp(hk)
+		nk := "ML:" + sortID(ks)
+		ns := fx.comp(st, nk, SArr(SInt, SBV64))
+		fx.setComp(st, nk, Store(ns, r, BVLit(0, 64)))
+		logComp(nk)
 		fr.vals[t] = Val{T: r, Typ: t.Type()}
 		return true
 	case *ssa.MapUpdate:
-		fx.havocAll(st)
+		mt := t.Map.Type().Underlying().(*types.Map)
+		m := fx.termOf(fr, st, fr.val(t.Map))
+		if strings.HasPrefix(m.S, "GL_") {
+			fx.havocAll(st)
+			return true
+		}
+		fx.safe(fr, st, "assignment to entry in nil map", Not(IdEq(m, T("0", SRef))), t.Pos())
+		k := fx.termOf(fr, st, fr.val(t.Key))
+		v := fx.termOf(fr, st, fr.val(t.Value))
+		ks, vs := w.SortOf(mt.Key()), w.SortOf(mt.Elem())
+		hk, vk, nk := "MH:"+sortID(ks), "MV:"+sortID(ks)+"_"+sortID(vs), "ML:"+sortID(ks)
+		hs := fx.comp(st, hk, SArr(SInt, SArr(ks, SBool)))
+		vals := fx.comp(st, vk, SArr(SInt, SArr(ks, vs)))
+		ns := fx.comp(st, nk, SArr(SInt, SBV64))
+		had := Select(Select(hs, m), k)
+		fx.setComp(st, nk, Store(ns, m, Ite(had, Select(ns, m), bvbin("bvadd", Select(ns, m), BVLit(1, 64)))))
+		fx.setComp(st, hk, Store(hs, m, Store(Select(hs, m), k, True)))
+		fx.setComp(st, vk, Store(vals, m, Store(Select(vals, m), k, v)))
+		logComp(hk)
+		logComp(vk)
+		logComp(nk)
 		return true
 	case *ssa.Call:
 		return fx.execCall(fr, st, t, &t.Call, t)
@@ -444,14 +474,62 @@ func (fx *FX) immElems(sname string, field int, obj Term) *immInfo {
 	return &immInfo{fe: fe, obj: obj, es: es}
 }
 
+// typeInvFor returns the declared invariant for struct sort sname, if any.
+func (fx *FX) typeInvFor(sname string) *TypeInv {
+	for _, ti := range fx.e.CS.TypeInvs {
+		if "S_"+sanitize(ti.Type) == sname {
+			return ti
+		}
+	}
+	return nil
+}
+
+// assumeTypeInv: object invariants hold of every object a function receives or reads (they are
+// re-established by every function that writes the fields they mention: checked at its exits).
+func (fx *FX) assumeTypeInv(st *State, obj Term, sname string) {
+	ti := fx.typeInvFor(sname)
+	if ti == nil || fx.inInv {
+		return
+	}
+	if fx.c != nil && strings.Contains(fx.c.Opts["no-type-invariant"], ti.Type) {
+		return
+	}
+	key := st.epoch + "|" + obj.S + "|" + sname
+	if fx.invAssumed[key] || fx.invBroken[obj.S+"|"+sname] {
+		return
+	}
+	fx.invAssumed[key] = true
+	typ := fx.e.lookupType(ti.Type)
+	if typ == nil {
+		return
+	}
+	fx.inInv = true
+	env := fx.newEnv(nil, st)
+	env.onlyNames = true
+	env.names["self"] = Val{T: obj, Typ: types.NewPointer(typ)}
+	g := fx.evalBool(env, ti.Expr)
+	fx.inInv = false
+	fx.assume(st.reach, Implies(Not(IdEq(obj, T("0", SRef))), g))
+}
+
 func (fx *FX) loadHeapField(st *State, obj Term, sname string, field int) Term {
+	fx.assumeTypeInv(st, obj, sname)
 	si := fx.e.W.structs[sname]
 	if fn, ok := fx.immutableField(sname, field); ok {
 		return app(fn, si.fields[field], obj)
 	}
 	key := fmt.Sprintf("H:%s.%d", sname, field)
 	h := fx.comp(st, key, SArr(SInt, si.fields[field]))
-	return Select(h, obj)
+	r := Select(h, obj)
+	// the heap a function starts with refers only to objects allocated before it started
+	if init, ok := fx.epochConsts["e0|"+key]; ok && init.S == h.S && si.fields[field] == SRef && fx.oldState != nil {
+		k2 := "entryptr|" + key + "|" + obj.S
+		if !fx.invAssumed[k2] {
+			fx.invAssumed[k2] = true
+			fx.assume(True, app("<", SBool, r, fx.comp(fx.oldState, "$alloc", SInt)))
+		}
+	}
+	return r
 }
 
 func (fx *FX) storeHeapField(fr *frame, st *State, obj Term, sname string, field int, pt types.Type, v Term, init bool) {
@@ -472,6 +550,11 @@ func (fx *FX) storeHeapField(fr *frame, st *State, obj Term, sname string, field
 	h := fx.comp(st, key, SArr(SInt, si.fields[field]))
 	fx.setComp(st, key, Store(h, obj, v))
 	logComp(key)
+	if fx.typeInvFor(sname) != nil {
+		// the invariant of obj may be broken until the function re-establishes it
+		fx.invBroken[obj.S+"|"+sname] = true
+		fx.invObjs = append(fx.invObjs, [2]string{obj.S, sname})
+	}
 }
 
 func (fx *FX) applyPath(base Term, path []pstep) Term {
@@ -1019,14 +1102,8 @@ func (fx *FX) execLookup(fr *frame, st *State, t *ssa.Lookup) bool {
 		mt := t.X.Type().Underlying().(*types.Map)
 		m := fx.termOf(fr, st, fr.val(t.X))
 		k := fx.termOf(fr, st, fr.val(t.Index))
-		vs := w.SortOf(mt.Elem())
-		ks := w.SortOf(mt.Key())
-		fname := "map_get_" + sortID(ks) + "_" + sortID(vs)
-		hname := "map_has_" + sortID(ks)
-		w.Declare(fname, fmt.Sprintf("(declare-fun %s (Int %s) %s)", fname, ks, vs))
-		w.Declare(hname, fmt.Sprintf("(declare-fun %s (Int %s) Bool)", hname, ks))
-		has := app(hname, SBool, m, k)
-		v := Ite(has, app(fname, vs, m, k), w.Zero(mt.Elem()))
+		has, val := fx.mapRead(st, m, k, mt)
+		v := Ite(has, val, w.Zero(mt.Elem()))
 		v.Signed = isSigned(mt.Elem())
 		if t.CommaOk {
 			fr.vals[t] = Val{Tuple: []Val{{T: fx.define(t.Name(), v), Typ: mt.Elem()}, {T: fx.define(t.Name()+"_ok", has), Typ: types.Typ[types.Bool]}}}
@@ -1060,4 +1137,21 @@ func (fx *FX) execNext(fr *frame, st *State, t *ssa.Next) bool {
 
 func (fx *FX) execPanic(fr *frame, st *State, t *ssa.Panic) {
 	fx.oblige(st, "safe", "safe(panic unreachable)", "explicit panic is unreachable", False, t.Pos(), nil)
+}
+
+// mapRead: maps reached through the heap have contents in state components (MH: key set, MV: values,
+// ML: length); package-level maps that are only written by init are uninterpreted functions.
+func (fx *FX) mapRead(st *State, m, k Term, mt *types.Map) (Term, Term) {
+	w := fx.e.W
+	ks, vs := w.SortOf(mt.Key()), w.SortOf(mt.Elem())
+	if strings.HasPrefix(m.S, "GL_") {
+		fname := "map_get_" + sortID(ks) + "_" + sortID(vs)
+		hname := "map_has_" + sortID(ks)
+		w.Declare(fname, fmt.Sprintf("(declare-fun %s (Int %s) %s)", fname, ks, vs))
+		w.Declare(hname, fmt.Sprintf("(declare-fun %s (Int %s) Bool)", hname, ks))
+		return app(hname, SBool, m, k), app(fname, vs, m, k)
+	}
+	hs := fx.comp(st, "MH:"+sortID(ks), SArr(SInt, SArr(ks, SBool)))
+	vals := fx.comp(st, "MV:"+sortID(ks)+"_"+sortID(vs), SArr(SInt, SArr(ks, vs)))
+	return Select(Select(hs, m), k), Select(Select(vals, m), k)
 }
